@@ -97,7 +97,7 @@ func (w *World) scopeOf(prop string) []*propScope {
 		}
 		return m[f]
 	}
-	for _, c := range w.Contracts.ByKey {
+	for _, c := range w.Contracts.ByFunc {
 		if c.Fn == nil || c.Trusted && len(c.Fn.Blocks) == 0 {
 			continue
 		}
@@ -455,7 +455,7 @@ func cmdCheck(args []string) int {
 				continue
 			}
 			// new obligation: violation only with a replayed counterexample
-			if o.Status == "sat" && o.Expect != "sat" {
+			if o.Status == "sat" && o.Expect != "sat" && w.isEntry(o.Func) {
 				if rr := tryReplay(w, o); rr != nil && rr.Reproduced {
 					report(o, "new obligation with a counterexample that replays on the real code")
 					continue
@@ -580,4 +580,18 @@ func cmdReplay(args []string) int {
 		return 1
 	}
 	return 0
+}
+
+// isEntry: functions whose inputs come straight from a library (yaml nodes, strings) and are therefore
+// adversarial modulo the stated requires/axioms. Only for these is a replayed function-level panic a
+// violation of a system-level property.
+func (w *World) isEntry(key string) bool {
+	f := w.Funcs[key]
+	if f == nil {
+		return false
+	}
+	if c := w.Contracts.ByFunc[f]; c != nil && c.Entry {
+		return true
+	}
+	return w.Contracts.MethodNonNil[f.Name()] && f.Signature.Recv() != nil
 }
